@@ -183,6 +183,39 @@ def run(ctx, build):
                 fs.close()
             except Exception:
                 pass
+    # ---- the scripted corner-case histories of C04 (each needs something specific), every intermediate image ----------
+    from props import c04
+    for ft in (('fat16', 'fat12', 'fat32') if ctx.thorough else ('fat16', 'fat12')):
+        g = fatimg.Geometry(ft, 160, spc=1, bps=512, nfats=2, root_entries=128, fsinfo=True, type_string=True)
+        for label, ops in c04.scripts(g.cs):
+            if label in ('dot-components', 'many-names-sharing-six-alias-characters') or (not ctx.thorough and label != 'first-cluster-reused-after-rmdir'):
+                continue
+            b = fatimg.Builder(g, rng)
+            buf = bytearray(b'\xA5' * GUARD) + b.img + bytearray(b'\x5A' * GUARD)
+            tr = fattrace.Tracer(buf, slice(GUARD, len(buf) - GUARD))
+            fs = tr.open_fs()
+            t = fatops.Tree()
+            history = []
+            try:
+                for i, op in enumerate(ops):
+                    if '_expect' in op:
+                        continue          # outcomes the plain model cannot derive: C04 judges them
+                    before = copy.deepcopy(t)
+                    fatops.apply_model(t, op)
+                    res, events = tr.run(lambda: fatops.apply_impl(fs, op))
+                    jop = jsonable_op(op)
+                    history.append(jop)
+                    n = sum(1 for e in events if e[0] == 'poke')
+                    images += n
+                    ctx.case(('script', ft, label, i), n >= 2, 'script-' + label)
+                    info = dict(geometry={k: v for k, v in vars(g).items()}, script=label, history=history, intermediate_images=n)
+                    if not examine(ctx, R, g, events, before, op, info):
+                        return
+            finally:
+                try:
+                    fs.close()
+                except Exception:
+                    pass
     # ---- operations that fail for lack of space (C10's cases), every intermediate image --------------
     combos = [('fat16', 0, False), ('fat32', 0, True), ('fat12', 0, False)]
     for ft, extra, fsinfo in combos:
